@@ -1,5 +1,7 @@
 import ESV.Gen.Tables
 import ESV.Base.Dec
 import ESV.Base.Dict
+import ESV.Base.Ssb
 import ESV.SourceMap.Model
+import ESV.SsbScript.Model
 import ESV.Props.C14
